@@ -88,6 +88,12 @@ func scenarios() []scenario {
 	g10 := prep(&peg.Grammar{Rules: []*peg.Rule{{Name: "S", Expr: peg.Seq(peg.Plus(peg.Choice(peg.Lit("ab"), peg.Cls(false, false, "a-c"))), peg.Not(peg.Any()))}}})
 	out = append(out, scenario{"s10-parsereader-raw-values", g10, core.Gen{}, script(g10, 0), []call{{"abcab", rtapi.RunOpts{UseReader: true}}, {"cba", rtapi.RunOpts{UseReader: true}}}})
 	out = append(out, scenario{"s11-parsereader-optimized-failing", g10, core.Gen{Optimize: true}, script(g10, 0), []call{{"abcab", rtapi.RunOpts{UseReader: true}}, {"cbxa", rtapi.RunOpts{UseReader: true}}, {"ab", rtapi.RunOpts{}}}})
+	// s12: a throw taken in a label-free choice alternative, recovered by an INLINE recovery expression
+	// that binds a label its action reads; both calls go through the recovery path with different text
+	g12 := prep(&peg.Grammar{Rules: []*peg.Rule{
+		{Name: "S", Expr: peg.Action(0, peg.Seq(peg.Label("v", peg.Seq(peg.Ref("A"), peg.Star(peg.Seq(lit(","), peg.Ref("A"))))), peg.Not(peg.Any())))},
+		{Name: "A", Expr: peg.Recover(peg.Choice(lit("a"), peg.Throw("l")), peg.Action(0, peg.Seq(peg.Label("j", peg.Plus(peg.Cls(false, false, "b-d"))), peg.AndCode(0))), "l")}}})
+	out = append(out, scenario{"s12-recovery-binds-label", g12, core.Gen{}, script(g12, 0), []call{{"a,bcd", rtapi.RunOpts{}}, {"ddb,a", rtapi.RunOpts{}}}})
 	out = append(out, scenario{"s8-three-calls", g1, core.Gen{}, script(g1, 0), []call{{"a", rtapi.RunOpts{InitState: true}}, {"b", rtapi.RunOpts{}}, {"", rtapi.RunOpts{InitState: true}}}})
 	return out
 }
@@ -291,6 +297,15 @@ func historySequences(c *ShardCtx, variant int) {
 		}
 	}
 	calls = append(calls, hcall{inputs[0], rtapi.RunOpts{MaxExpr: 4000}, boom}, hcall{inputs[2], rtapi.RunOpts{MaxExpr: 4000, NoRecover: true}, boom}, hcall{"ab\xffc", rtapi.RunOpts{MaxExpr: 4000}, plain}, hcall{"ab\xffc", rtapi.RunOpts{MaxExpr: 4000, AllowInvalid: true}, plain})
+	// option lists a wrapper builds: its own defaults in front of the caller's options (every
+	// option preceded by its opposite), every option twice
+	for _, in := range []string{inputs[0], inputs[4], "ab\xffc"} {
+		calls = append(calls, hcall{in, rtapi.RunOpts{MaxExpr: 4000, Shadowed: true}, plain}, hcall{in, rtapi.RunOpts{MaxExpr: 4000, AllowInvalid: true, Doubled: true}, plain},
+			hcall{in, rtapi.RunOpts{MaxExpr: 4000, AllowInvalid: true, NoRecover: true, Shadowed: true}, plain})
+		if b.Flags.HasMemo() {
+			calls = append(calls, hcall{in, rtapi.RunOpts{MaxExpr: 4000, Memoize: true, Doubled: true}, plain}, hcall{in, rtapi.RunOpts{MaxExpr: 4000, Memoize: true, Shadowed: true}, plain})
+		}
+	}
 	small = append(small, hcall{inputs[4], rtapi.RunOpts{MaxExpr: 4000}, plain}, hcall{inputs[5], rtapi.RunOpts{MaxExpr: 4000}, plain}, hcall{inputs[0], rtapi.RunOpts{MaxExpr: 4000}, boom})
 	for n := uint64(1); n <= 40; n++ {
 		calls = append(calls, hcall{inputs[2], rtapi.RunOpts{MaxExpr: n}, plain})
